@@ -77,6 +77,11 @@ pub fn run(id: &str, o: &Oracle, tier: &str, seed: u64, rep: &Report) -> bool {
 /// Record a violation as a replayable case: the event (op + arguments), the fields the
 /// specification expects, and what the code did.
 pub fn viol(rep: &Report, event: Value, expected: Value, why: &str) {
+    if rep.violations_total.load(std::sync::atomic::Ordering::Relaxed) >= 20 {
+        // only the first 20 are stored; the rest are counted (and the sweep stops early once there are 1000)
+        rep.count_violation();
+        return;
+    }
     let observed = observe(&event);
     rep.violation(json!({"property": rep.property, "why": why, "event": event, "expected": expected, "observed": observed}));
 }
@@ -112,6 +117,9 @@ pub fn par_subsets<F: Fn(&[usize], u64) + Sync>(k: usize, f: F) {
         idx.extend((b + 1)..(b + 1 + k - 2));
         let mut local = (ci as u64) << 32;
         loop {
+            if crate::util::saturated() {
+                return;
+            }
             f(&idx, local);
             local += 1;
             // advance positions 2..
